@@ -47,15 +47,16 @@ def _mk(c):
     """Backend with shared filterbank objects (list form: no deepcopy) and the data path stubbed."""
     import setigen.voltage as sv
     na, npol = c['nants'], c['npol']
+    t0 = _T(c)        # the source's polarisation / antenna counts and the requantiser's bit depth in the caller's numeric type too
     if na == 1:
         src = sv.Antenna(sample_rate=c['rate'], fch1=c.get('fch1', 0.0), ascending=c.get('asc', True),
-                         num_pols=npol, seed=1)
+                         num_pols=t0(npol), seed=1)
     else:
-        src = sv.MultiAntennaArray(num_antennas=na, sample_rate=c['rate'], fch1=c.get('fch1', 0.0),
-                                   ascending=c.get('asc', True), num_pols=npol, delays=[0] * na, seed=1)
+        src = sv.MultiAntennaArray(num_antennas=t0(na), sample_rate=c['rate'], fch1=c.get('fch1', 0.0),
+                                   ascending=c.get('asc', True), num_pols=t0(npol), delays=[0] * na, seed=1)
     fb = _fb(c['M'], c['P'])
     dig = [[sv.RealQuantizer() for _ in range(npol)] for _ in range(na)]
-    rq = [[sv.ComplexQuantizer(num_bits=c['bits']) for _ in range(npol)] for _ in range(na)]
+    rq = [[sv.ComplexQuantizer(num_bits=t0(c['bits'])) for _ in range(npol)] for _ in range(na)]
     fbl = [[fb for _ in range(npol)] for _ in range(na)]
     bps = 2 * npol * c['bits'] // 8
     spb = c['spb']
